@@ -187,6 +187,23 @@ def obligations_for(prop, audit):
     return expected, discharged, problems
 
 
+MEM_LIMIT = 16 << 30       # address space of a harness process that drives the real code (a changed library may ask for anything)
+
+
+def limit_memory():
+    """in a harness child: allocations beyond MEM_LIMIT raise MemoryError in the library call that asks for them"""
+    import resource
+    _soft, hard = resource.getrlimit(resource.RLIMIT_AS)
+    resource.setrlimit(resource.RLIMIT_AS, (MEM_LIMIT if hard == resource.RLIM_INFINITY else min(MEM_LIMIT, hard), hard))
+
+
+def _unlimit_memory():
+    """preexec of the model driver: Lean maps large address ranges; the limit is for the code under test only"""
+    import resource
+    _soft, hard = resource.getrlimit(resource.RLIMIT_AS)
+    resource.setrlimit(resource.RLIMIT_AS, (hard, hard))
+
+
 def run_driver(component, lines, timeout=600):
     """feed `lines` to the model driver, return the list of answer lines"""
     if not lines:
@@ -194,7 +211,7 @@ def run_driver(component, lines, timeout=600):
     inp = "\n".join(lines) + "\n"
     p = subprocess.run(
         ["lake", "env", "lean", "--run", "Driver.lean", component],
-        cwd=LEAN, input=inp, capture_output=True, text=True, timeout=timeout,
+        cwd=LEAN, input=inp, capture_output=True, text=True, timeout=timeout, preexec_fn=_unlimit_memory,
     )
     if p.returncode != 0:
         raise Infra(f"driver {component} exited {p.returncode}: {p.stderr[:500]}")
